@@ -34,7 +34,7 @@ TEXTS = {
     "C04": {
         "technique": "model-based stateful property testing; Prefix results vs. bytes.HasPrefix filter of the sorted model, sibling-splice prefix generator; known finding KF3 (reordered combining marks) excluded and probed",
         "design_ref": "DESIGN.md §4 C04",
-        "level_text": "Histories on byte-string trees and on collation trees (6 collators, contraction-free text) with Prefix(p) for p empty, stored, cut inside/at/after a compressed path, extended, spliced from a sibling subtree, longer than every key or unmatched; the result must equal the model filtered by HasPrefix on the original bytes, in tree order, and never panic. Derived audits query prefixes of stored keys cut at 1, len/2, 10, 11, len-1, len; the closures try every prefix of every universe key in every reachable state.",
+        "level_text": "Histories on byte-string trees and on collation trees (6 collators, contraction-free text) with Prefix(p) for p empty, stored, cut inside/at/after a compressed path, extended, spliced from a sibling subtree, longer than every key or unmatched; the result must equal the model filtered by HasPrefix on the original bytes, in tree order, and never panic. Derived audits query prefixes of stored keys cut at 1, len/2, 10, 11, len-1, len; the closures try every prefix of every universe key in every reachable state. One input class is an open known finding (KF3: a prefix that ends between combining marks the collator reorders) and is left unasserted, counted and probed.",
         "level_note": _TRUST + "Collation precondition (primary weights of p+s start with those of p) is checked per query with an independent primary-strength collator; violating queries are carved out and counted. " + _DOMAIN,
     },
     "C05": {
@@ -108,13 +108,13 @@ TEXTS = {
     "C16": {
         "technique": "concurrent re-execution of rapid-generated per-goroutine histories under the Go race detector, results vs. sequential reference; plus a volume part (goroutines hammering private trees, millions of operations, plain and race builds)",
         "design_ref": "DESIGN.md §4 C16",
-        "level_text": "Under -race, goroutines with private trees re-execute generated histories simultaneously (pool shared), and many goroutines query one quiescent tree; GOMAXPROCS and yield points are drawn per case; every reader also runs a fixed battery of special reads so that each query path is executed by all goroutines at once; any race report or deviation from the sequential results is a violation.",
+        "level_text": "Under -race, goroutines with private trees re-execute generated histories simultaneously (pool shared), and many goroutines query one quiescent tree; GOMAXPROCS and yield points are drawn per case; every reader also runs a fixed battery of special reads so that each query path is executed by all goroutines at once; any race report or deviation from the sequential results is a violation. Part C adds volume: 8-16 goroutines hammer private trees (lookup-dominated, or hovering on the size-class thresholds) or one shared quiescent tree for millions of operations, in a plain and a race build.",
         "level_note": "Schedules are sampled, not enumerated; a race whose two accesses never both execute in a sampled run is missed. The race detector reports no false positives.",
     },
     "C17": {
         "technique": "generated long-running scenarios with live-heap measurement at geometric checkpoints (N,2N,4N,8N operations), emptied / fill-and-drain / big-value scattered-survivor phases",
         "design_ref": "DESIGN.md §4 C17",
-        "level_text": "rapid draws kind, key set and operation mix; 8N operations run (N=1e5 quick, 1e6 thorough) and live heap after forced collections is sampled at 0,N,2N,4N,8N: growth above 1 MiB that shows in at least two intervals is a leak; mixes: lookups only, sequences only, all reads, overwrites, churn of a fixed key set, sliding window of ever fresh keys, waves, mixed; after deleting every key, and again after a 30 000-key fill-and-drain, the tree may retain at most 256 KiB.",
+        "level_text": "rapid draws kind, key set and operation mix; 8N operations run (N=1e5 quick, 1e6 thorough) and live heap after forced collections is sampled at 0,N,2N,4N,8N: growth above 1 MiB that shows in at least two intervals is a leak; mixes: lookups only, sequences only, all reads, overwrites, churn of a fixed key set, sliding window of ever fresh keys, waves, mixed; after deleting every key, and again after a 30 000-key fill-and-drain, the tree may retain at most 256 KiB; three phases with 64 KiB values (scattered survivors, thinning of the scenario's key set, deleted extreme leaf of 128 groups) compare what is kept alive with the survivors' share or with a tree built from the survivors.",
         "level_note": "A measurement against thresholds, not a bound proof; leaks below ~0.7 B/op (quick) / ~0.15 B/op (thorough) escape. Over-threshold emptied-tree measurements are re-taken up to three times.",
     },
     "C18": {
